@@ -638,6 +638,8 @@ def obtain(h):
         lambda: ObtainQuantity(OrderedDict([("length", ("m", 1))]), None, "Caption C"),
         lambda: Quantity.CreateDerived(OrderedDict([("length", ["m", 1])]), unknown_unit_caption="Feeeet"),
         lambda: ObtainQuantity(OrderedDict([("length", ["m", 2]), ("time", ["s", -1])]), None, "Caption D"),
+        lambda: ObtainQuantity(OrderedDict([("length", ["m", 1]), ("depth", ["m", 1])])),
+        lambda: ObtainQuantity(OrderedDict([("length", ["m", 1]), ("depth", ["m", -1]), ("time", ["s", 1])])),
     ):
         q = mk()
         exp_cap = q.GetUnknownCaption()
@@ -648,7 +650,7 @@ def obtain(h):
         for obj in (Scalar(q, 2.5), FixedArray(2, q, [1.0, 2.0]), q):
             back = pickle.loads(pickle.dumps(obj))
             bq = back if obj is q else back.GetQuantity()
-            if not (back == obj) or (bq.GetUnknownCaption() or "") != (exp_cap or ""):
+            if not (back == obj) or (bq.GetUnknownCaption() or "") != (exp_cap or "") or dict(bq.GetCategoryToUnitAndExps()) != dict(q.GetCategoryToUnitAndExps()):
                 return {"reproduced": True, "call": "pickle.loads(pickle.dumps(%r)) with caption %r" % (obj, exp_cap), "observed": "%r with caption %r, equal=%s" % (back, bq.GetUnknownCaption(), back == obj), "expected": "an equal object with the same caption"}
     db = qs[0].GetUnitDatabase()
     if qs[7].GetCategory() != db.GetDefaultCategory("m") or qs[9].GetCategory() != db.GetDefaultCategory("bbl/ft"):
@@ -878,6 +880,18 @@ def construct_forms(h):
                 r = eval(repr(a), {"Scalar": Scalar})
                 if r != a:
                     return {"reproduced": True, "call": "eval(repr(%r))" % a, "observed": repr(r), "expected": repr(a)}
+    # C19: the values container of an Array built from the category alone is its own (filling one in place
+    # must not show up in the next one)
+    a1 = Array("length")
+    try:
+        a1.values.append(1500.0)
+    except Exception:
+        pass
+    for c in ("length", "temperature"):
+        a2 = Array(c)
+        ci = db.GetCategoryInfo(c)
+        if len(a2.values) != 0 or a2 != Array(c, [], ci.default_unit) or a2 != Array([], ci.default_unit, c):
+            return {"reproduced": True, "call": "a = Array('length'); a.values.append(1500.0); Array(%r)" % c, "observed": repr(a2), "expected": repr(Array(c, [], ci.default_unit))}
     # C02: Scalar(category, unit=u) carries the category's default amount, expressed in u (categories whose
     # default unit is not the base unit and whose default value is not zero, on a private database)
     db2 = UnitDatabase.CreateDefaultSingleton()
@@ -1051,6 +1065,11 @@ def derived_strings(h):
                     return {"reproduced": True, "call": "ObtainQuantity(%r)" % dict(d), "observed": got, "expected": (exp_cat, exp_qt, exp_unit)}
                 if sorted(parse(q.GetUnit())) != sorted((u, e) for u, e in ju if e != 0):
                     return {"reproduced": True, "call": "parse(%r)" % q.GetUnit(), "observed": parse(q.GetUnit()), "expected": ju}
+                # the unit-name string: the registered names of the units, joined per name, long form
+                jn = joined([(db.GetUnitName(db.GetCategoryQuantityType(c), u), e) for c, u, e in seq])
+                exp_name = rend(jn, True)
+                if q.GetUnitName() != exp_name:
+                    return {"reproduced": True, "call": "ObtainQuantity(%r).GetUnitName()" % dict(d), "observed": q.GetUnitName(), "expected": exp_name}
     return {"reproduced": False}
 
 
@@ -1231,6 +1250,9 @@ def _value_objects():
         ObtainQuantity("m", "length"), ObtainQuantity(OrderedDict([("length", ["m", 2])])),
         Scalar(1.0, "m"), Scalar(100.0, "cm"), Scalar(1.0, "m", "depth"), Scalar(1.0, "m") * Scalar(1.0, "m"),
         Array([1.0, 2.0], "m"), Array((1.0, 2.0), "m"), Array(numpy.array([1.0, 2.0]), "m"), Array([], "m"),
+        Array(numpy.array([1.0, 2.0, 3.0]), "m"), Array(numpy.array([1.0]), "m"), Array(numpy.array([]), "m"), Array(numpy.array([1.0, 1.0]), "m"),
+        FixedArray(2, numpy.array([1.0, 2.0]), "m"), FixedArray(3, numpy.array([1.0, 2.0, 3.0]), "m"),
+        Curve(Array(numpy.array([1.0, 2.0, 3.0]), "m"), Array(numpy.array([0.0, 1.0, 2.0]), "s")),
         FixedArray(2, [1.0, 2.0], "m"), FixedArray(3, [1.0, 2.0, 3.0], "m"),
         FractionScalar("length", value=FractionValue(1, Fraction(1, 2)), unit="m"), FractionScalar(1.5, "m"),
         FractionValue(1, Fraction(1, 2)), FractionValue(1.5), Fraction(1, 2), Fraction(2, 4), Fraction(3, 1),
@@ -1256,6 +1278,8 @@ def equality(h):
                     return {"reproduced": True, "call": "%s with x=%r (%s), y=%r (%s)" % (name, x, type(x).__name__, y, type(y).__name__), "observed": repr(e), "expected": "a bool"}
             if res[0] != res[1] or res[2] != res[3] or res[0] == res[2]:
                 return {"reproduced": True, "call": "==/!= between %r and %r" % (x, y), "observed": res, "expected": "symmetric, != is the negation of =="}
+            if res[0] and hasattr(x, "GetValues") and hasattr(y, "GetValues") and list(x.GetValues()) != list(y.GetValues()):
+                return {"reproduced": True, "call": "%r == %r" % (x, y), "observed": True, "expected": "False (different values / lengths)"}
             if res[0]:
                 try:
                     hx, hy = hash(x), hash(y)
@@ -1315,7 +1339,7 @@ def fraction_scalar(h):
     from barril.basic.fraction import Fraction, FractionValue
 
     clause = h.get("clause") or ""
-    vals = [FractionValue(5, Fraction(1, 2)), FractionValue(0, Fraction(3, 4)), FractionValue(-2, Fraction(1, 8)), FractionValue(1.25)]
+    vals = [FractionValue(5, Fraction(1, 2)), FractionValue(0, Fraction(3, 4)), FractionValue(-2, Fraction(1, 8)), FractionValue(1.25), FractionValue(-2, Fraction(-1, 2)), FractionValue(0, Fraction(-3, 4)), FractionValue.CreateFromFloat(-2.5)]
     pairs = [("m", "cm"), ("in", "ft"), ("degC", "K"), ("degF", "degC")]
     want_affine = "affine" in clause
     want_order = "order" in clause or bool(h.get("variant") and h["variant"][0] in ("lt", "le", "gt", "ge"))
@@ -1492,6 +1516,17 @@ def validity(h):
             lim_ok = (not math.isnan(v)) and (ci.min_value is None or (v > ci.min_value if ci.is_min_exclusive else v >= ci.min_value)) and (ci.max_value is None or (v < ci.max_value if ci.is_max_exclusive else v <= ci.max_value))
             if ok_m != lim_ok:
                 return {"reproduced": True, "call": "Scalar(%r, %r, 'm').IsValid()" % (cat, v), "observed": ok_m, "expected": lim_ok}
+    # a copy re-tagged with another category answers for ITS category, whatever the source had memoised
+    src = Array("length", [-5.0, 50.0, 250.0], "m")
+    src.IsValid()
+    cp = src.CreateCopy(unit="km", category="probe depth")
+    if cp.IsValid() or Array("probe depth", [-0.005, 0.05, 0.25], "km").IsValid():
+        return {"reproduced": True, "call": "a = Array('length', [-5, 50, 250], 'm'); a.IsValid(); a.CreateCopy(unit='km', category='probe depth').IsValid()  (limits [0, 15] m)", "observed": cp.IsValid(), "expected": False}
+    bad = Array("probe depth", [-5.0, 50.0], "m")
+    bad.IsValid()
+    cp2 = bad.CreateCopy(unit="m", category="length")
+    if not cp2.IsValid():
+        return {"reproduced": True, "call": "an invalid 'probe depth' Array re-tagged as plain length", "observed": False, "expected": True}
     # limits are stated in the category's default unit, which need not be the base unit of the quantity type
     name = "probe reach km"
     if name not in db.categories_to_quantity_types:
@@ -1664,3 +1699,79 @@ def c09_float_bounded(h):
     if r:
         return r
     return {"reproduced": False, "evaluations": n}
+
+
+@probe("create_derived")
+def create_derived(h):
+    """C05: Quantity.CreateDerived validates every entry: a unit that does not belong to its category's quantity
+    type is rejected wherever it stands in the composition"""
+    from collections import OrderedDict
+    from barril.units import Quantity
+    from barril.units.unit_database import InvalidUnitError, InvalidQuantityTypeError
+
+    bad = [
+        [("length", ["m", 1]), ("time", ["m", 1])],
+        [("time", ["s", -1]), ("length", ["s", 1])],
+        [("length", ["m", 2]), ("time", ["m", -1])],
+        [("time", ["m", 1]), ("length", ["m", 1])],
+        [("length", ["m", 1]), ("no such category", ["m", 1])],
+        [("length", ["lbmole", 2])],
+    ]
+    for comp in bad:
+        try:
+            q = Quantity.CreateDerived(OrderedDict((c, list(ue)) for c, ue in comp))
+        except (InvalidUnitError, InvalidQuantityTypeError):
+            continue
+        except Exception as e:
+            return {"reproduced": True, "call": "Quantity.CreateDerived(%r)" % comp, "observed": repr(e), "expected": "InvalidUnitError / InvalidQuantityTypeError"}
+        return {"reproduced": True, "call": "Quantity.CreateDerived(%r)" % comp, "observed": repr(q), "expected": "InvalidUnitError / InvalidQuantityTypeError"}
+    good = [[("length", ["m", 1]), ("depth", ["m", 1])], [("length", ["m", 2]), ("time", ["s", -1])], [("length", ["cm", -1]), ("depth", ["m", 1])]]
+    for comp in good:
+        try:
+            q = Quantity.CreateDerived(OrderedDict((c, list(ue)) for c, ue in comp))
+        except Exception as e:
+            return {"reproduced": True, "call": "Quantity.CreateDerived(%r)" % comp, "observed": repr(e), "expected": "a quantity"}
+        if [(c, list(ue)) for c, ue in q.GetCategoryToUnitAndExps().items()] != [(c, list(ue)) for c, ue in comp]:
+            return {"reproduced": True, "call": "Quantity.CreateDerived(%r)" % comp, "observed": repr(q.GetCategoryToUnitAndExps()), "expected": comp}
+    return {"reproduced": False}
+
+
+@probe("array_powers")
+def array_powers(h):
+    """C03/C04/C10/C13: operands whose unit carries an exponent other than 1 and has to be re-expressed: every
+    container kind gives the elementwise Scalar results, and the operands are untouched afterwards"""
+    import operator
+    import numpy
+    from barril.units import Array, Scalar
+
+    mk = {"list": list, "tuple": tuple, "ndarray": lambda v: numpy.array(v, dtype=float)}
+    ops = [("*", operator.mul), ("/", operator.truediv), ("+", operator.add), ("-", operator.sub)]
+    va, vb = [2.0, 3.0, 5.0], [100.0, 200.0, 400.0]
+    for ka in mk:
+        for kb in mk:
+            a = Array(mk[ka](va), "m")
+            b = Array(mk[kb](vb), "cm")
+            area_b = b * b  # cm2
+            area_a = a * a  # m2
+            inv_b = 1.0 / (b * b)  # 1/cm2
+            cases = [(a, area_b, "*"), (a, area_b, "/"), (area_a, area_b, "+"), (area_a, area_b, "-"), (area_b, area_a, "+"), (a, inv_b, "*"), (area_a, inv_b, "*")]
+            for x, y, sym in cases:
+                op = dict(ops)[sym]
+                bx, by = (list(x.GetValues()), x.GetUnit()), (list(y.GetValues()), y.GetUnit())
+                call = "Array(%s %r [%s]) %s Array(%s %r [%s])" % (type(x.GetValues()).__name__, bx[0], bx[1], sym, type(y.GetValues()).__name__, by[0], by[1])
+                try:
+                    r = op(x, y)
+                except Exception as e:
+                    return {"reproduced": True, "call": call, "observed": repr(e), "expected": "an Array"}
+                if (list(x.GetValues()), x.GetUnit()) != bx or (list(y.GetValues()), y.GetUnit()) != by:
+                    return {"reproduced": True, "call": call, "observed": "operands afterwards: %r [%s], %r [%s]" % (list(x.GetValues()), x.GetUnit(), list(y.GetValues()), y.GetUnit()), "expected": "operands unchanged"}
+                for i in range(len(va)):
+                    s = op(Scalar(bx[0][i], x.GetQuantity().GetUnit()) if not x.GetQuantity().IsDerived() else Scalar.CreateWithQuantity(x.GetQuantity(), bx[0][i]), Scalar.CreateWithQuantity(y.GetQuantity(), by[0][i]))
+                    if not close(float(r.GetValues()[i]), s.GetValue(), 1e-12) or r.GetQuantity() != s.GetQuantity():
+                        return {"reproduced": True, "call": call + " element %d" % i, "observed": [float(r.GetValues()[i]), r.GetUnit()], "expected": [s.GetValue(), s.GetUnit()]}
+                    mr, _ = magnitude(Scalar.CreateWithQuantity(r.GetQuantity(), float(r.GetValues()[i])))
+                    mx, _ = magnitude(Scalar.CreateWithQuantity(x.GetQuantity(), bx[0][i]))
+                    my, _ = magnitude(Scalar.CreateWithQuantity(y.GetQuantity(), by[0][i]))
+                    if not close(mr, op(mx, my), 1e-9):
+                        return {"reproduced": True, "call": call + " element %d (base magnitudes)" % i, "observed": mr, "expected": op(mx, my)}
+    return {"reproduced": False}
